@@ -464,6 +464,39 @@ func writeEvidence(c *Ctx, vd, prop, tier string, seed int, res []*procResult, o
 			closures++
 		}
 	}
+	// contracts relied on at call sites: trusted, or verified (under which properties)
+	verifiedHere := map[string]bool{}
+	for _, r := range res {
+		verifiedHere[r.fi.Key] = true
+	}
+	var callee []string
+	for k, ct := range c.contracts {
+		if !ct.Used || (ct.Kind != "func" && ct.Kind != "closure") {
+			continue
+		}
+		tags := map[string]bool{}
+		for _, cl := range ct.Clauses {
+			for _, t := range cl.Tags {
+				tags[t] = true
+			}
+		}
+		var ts []string
+		for t := range tags {
+			ts = append(ts, t)
+		}
+		sort.Strings(ts)
+		switch {
+		case ct.Trusted:
+			callee = append(callee, ct.Name+": trusted (assumed)")
+		case verifiedHere[k]:
+			callee = append(callee, ct.Name+": verified in this run")
+		case len(ts) > 0:
+			callee = append(callee, ct.Name+": assumed here, verified by the checks of "+strings.Join(ts, ","))
+		default:
+			callee = append(callee, ct.Name+": assumed (verified by no check)")
+		}
+	}
+	sort.Strings(callee)
 	var trusted []string
 	var assumptions []string
 	for n := range c.notes {
@@ -506,6 +539,7 @@ func writeEvidence(c *Ctx, vd, prop, tier string, seed int, res []*procResult, o
 		"vacuity_probes":           len(probes),
 		"vacuity_probes_passed":    vac,
 		"known_findings_matched":   kfs,
+		"callee_contracts_relied_on": callee,
 		"bounded_standins":         []string{},
 		"explanation":              "every obligation is generated from the typed AST of /repo's working tree on this run; contracts are the //@ blocks of the verif-tagged files",
 	}
